@@ -1,0 +1,346 @@
+//go:build verif
+
+// Contracts for package compactindex (legacy 8-byte-value format; comment-only; read by /verif/vcgo, build tag verif).
+// Adapted from compactindexsized/contracts_verif.go.
+package compactindex
+
+//@ spec func le32p(b *[16]byte, o int) uint32 = uint32(b[o]) + uint32(b[o+1])*256 + uint32(b[o+2])*65536 + uint32(b[o+3])*16777216
+//@ spec func le48p(b *[16]byte, o int) uint64 = uint64(b[o]) + uint64(b[o+1])*256 + uint64(b[o+2])*65536 + uint64(b[o+3])*16777216 + uint64(b[o+4])*4294967296 + uint64(b[o+5])*1099511627776
+//@ spec func le32h(b *[32]byte, o int) uint32 = uint32(b[o]) + uint32(b[o+1])*256 + uint32(b[o+2])*65536 + uint32(b[o+3])*16777216
+//@ spec func le64h(b *[32]byte, o int) uint64 = uint64(b[o]) + uint64(b[o+1])*256 + uint64(b[o+2])*65536 + uint64(b[o+3])*16777216 + uint64(b[o+4])*4294967296 + uint64(b[o+5])*1099511627776 + uint64(b[o+6])*281474976710656 + uint64(b[o+7])*72057594037927936
+
+// ---- little-endian helpers ----
+
+// intWidth: the body is bits.LeadingZeros64 (external, not modelled by vcgo: result arbitrary) plus one division, so the
+// contract is trusted (without `trusted` the three post obligations are `sat` only because of the unmodelled call).
+//@ func intWidth
+//@   mode bv
+//@   pure
+//@   trusted
+//@   ensures result <= 8
+//@   ensures result < 8 ==> n >> (8*uint(result)) == 0
+//@   ensures result > 0 ==> n >> (8*(uint(result)-1)) != 0
+
+//@ func uintLe
+//@   mode bv
+//@   ensures forall i int :: 0 <= i && i < 8 ==> byte(result >> (8*uint(i))) == ite(i < len(buf), buf[i], 0)
+
+//@ func putUintLe
+//@   mode bv
+//@   modifies buf
+//@   ensures forall i int :: 0 <= i && i < 8 ==> (i < len(buf) ==> buf[i] == byte(x >> (8*uint(i))))
+//@   ensures forall i int :: 8 <= i && i < len(buf) ==> buf[i] == old(buf[i])
+//@   ensures result == (int(intWidth(x)) <= len(buf))
+
+//@ func hashUint64
+//@   mode bv
+
+//@ func EntryHash64
+//@   mode bv
+//@   trusted
+
+//@ func maxCls64
+//@   mode bv
+//@   trusted
+
+// ---- file header (fixed 32 bytes) ----
+
+//@ func (*Header) Load
+//@   mode bv
+//@   requires h != nil && buf != nil
+//@   modifies h
+//@   ensures result == nil ==> h.FileSize == le64h(buf, 8) && h.NumBuckets == le32h(buf, 16) && buf[20] == 1
+//@   ensures result == nil ==> forall i int :: 0 <= i && i < 8 ==> buf[i] == Magic[i]
+//@   ensures result == nil ==> forall i int :: 21 <= i && i < 32 ==> buf[i] == 0
+//@   ensures result != nil ==> result != ErrNotFound
+//@   loop 0 invariant forall i int :: 21 <= i && i < 21 + rangeidx0 ==> buf[i] == 0
+
+//@ func (*Header) Store
+//@   mode bv
+//@   requires h != nil && buf != nil
+//@   modifies buf
+//@   ensures le64h(buf, 8) == h.FileSize && le32h(buf, 16) == h.NumBuckets && buf[20] == 1
+//@   ensures forall i int :: 0 <= i && i < 8 ==> buf[i] == Magic[i]
+//@   ensures forall i int :: 21 <= i && i < 32 ==> buf[i] == 0
+//@   loop 0 invariant 21 <= i && i <= 32
+//@   loop 0 invariant le64h(buf, 8) == h.FileSize && le32h(buf, 16) == h.NumBuckets && buf[20] == 1
+//@   loop 0 invariant forall k int :: 0 <= k && k < 8 ==> buf[k] == Magic[k]
+//@   loop 0 invariant forall k int :: 21 <= k && k < i ==> buf[k] == 0
+//@   loop 0 decreases 32 - i
+
+// ---- bucket choice ----
+
+//@ func (*Header) BucketHash
+//@   mode bv
+//@   requires h != nil
+//@   panics h.NumBuckets == 0
+//@   ensures uint64(result) < uint64(h.NumBuckets)
+
+// ---- bucket header codec ----
+
+//@ func (*BucketHeader) Store
+//@   mode bv
+//@   requires b != nil && buf != nil
+//@   modifies buf
+//@   ensures le32p(buf, 0) == b.HashDomain && le32p(buf, 4) == b.NumEntries && buf[8] == b.HashLen && buf[9] == 0
+//@   ensures le48p(buf, 10) == b.FileOffset % 281474976710656
+
+//@ func (*BucketHeader) Load
+//@   mode bv
+//@   requires b != nil && buf != nil
+//@   modifies b
+//@   ensures b.HashDomain == le32p(buf, 0) && b.NumEntries == le32p(buf, 4) && b.HashLen == buf[8] && b.FileOffset == le48p(buf, 10)
+
+//@ func (*BucketHeader) Hash
+//@   mode bv
+//@   requires b != nil
+//@   ensures b.HashLen == 3 ==> result < 16777216
+
+// ---- entry codec (Hash: HashLen bytes LE, Value: OffsetWidth bytes LE) ----
+
+//@ func (*BucketDescriptor) unmarshalEntry
+//@   mode bv
+//@   requires b != nil
+//@   requires int(b.HashLen) + int(b.OffsetWidth) <= 255 && int(b.HashLen) <= 8 && int(b.OffsetWidth) <= 8 && len(buf) >= int(b.HashLen) + int(b.OffsetWidth)
+//@   ensures forall i int :: 0 <= i && i < 8 ==> byte(e.Hash >> (8*uint(i))) == ite(i < int(b.HashLen), buf[i], 0)
+//@   ensures forall j int :: 0 <= j && j < 8 ==> byte(e.Value >> (8*uint(j))) == ite(j < int(b.OffsetWidth), buf[int(b.HashLen)+j], 0)
+
+//@ func (*BucketDescriptor) marshalEntry
+//@   mode bv
+//@   requires b != nil
+//@   requires int(b.HashLen) + int(b.OffsetWidth) <= 255 && int(b.HashLen) <= 8 && int(b.OffsetWidth) <= 8 && int(b.Stride) == int(b.HashLen) + int(b.OffsetWidth)
+//@   panics len(buf) < int(b.Stride)
+//@   modifies buf
+//@   ensures forall i int :: 0 <= i && i < 8 ==> (i < int(b.HashLen) ==> buf[i] == byte(e.Hash >> (8*uint(i))))
+//@   ensures forall j int :: 0 <= j && j < 8 ==> (j < int(b.OffsetWidth) ==> buf[int(b.HashLen)+j] == byte(e.Value >> (8*uint(j))))
+
+// ---- stride / offsets ----
+
+//@ func (*DB) entryStride
+//@   mode int
+//@   requires db != nil
+//@   ensures int(result) == 3 + int(intWidth(db.Header.FileSize))
+
+//@ func bucketOffset
+//@   mode int
+//@   requires i <= 4294967296
+//@   ensures result == 32 + int64(i)*16
+
+//@ func minInt64
+//@   mode int
+//@   ensures result <= a && result <= b && (result == a || result == b)
+
+// ---- search over the eytzinger layout ----
+// H(t) below is res0(getter, t-1).Hash: the hash stored in node t (1-based) of the implicit tree.
+
+//@ func searchEytzinger
+//@   mode int
+//@   fnpure getter
+//@   requires min == 0 && 0 <= max && max <= 1099511627776 && getter != nil
+//@   requires forall t int :: 0 <= t && t < max ==> res1(getter, t) != ErrNotFound
+//@   requires forall j, k int :: 1 <= k && k <= max && 1 <= j && j <= max && anc(j, 2*k) ==> res0(getter, j-1).Hash < res0(getter, k-1).Hash
+//@   requires forall j, k int :: 1 <= k && k <= max && 1 <= j && j <= max && anc(j, 2*k+1) ==> res0(getter, j-1).Hash > res0(getter, k-1).Hash
+//@   ensures result1 == nil ==> exists t int :: 0 <= t && t < max && res1(getter, t) == nil && res0(getter, t).Hash == x && result0 == res0(getter, t).Value
+//@   ensures result1 == ErrNotFound ==> forall t int :: 0 <= t && t < max ==> res0(getter, t).Hash != x
+//@   ensures result1 != nil && result1 != ErrNotFound ==> exists t int :: 0 <= t && t < max && res1(getter, t) == result1
+//@   use forall t int :: ancRoot(t)
+//@   loop 0 invariant 0 <= index
+//@   loop 0 invariant forall t int :: 1 <= t && t <= max && res0(getter, t-1).Hash == x ==> anc(t, index+1)
+//@   loop 0 use forall t int :: t > index+1 ==> ancSplit(t, index+1)
+//@   loop 0 use forall t int :: ancBelow(t, index+1)
+//@   loop 0 decreases max - index
+
+// ---- reading entries from the file (ghost: fsize(r), fbyte(r, k) = size and bytes of the file behind r) ----
+
+//@ func (*BucketHeader) readFrom
+//@   mode int
+//@   requires b != nil && rd != nil && i <= 4294967296
+//@   modifies b
+//@   ensures result == nil ==> 32 + int64(i)*16 + 16 <= fsize(rd)
+//@   ensures result == nil ==> b.HashLen == fbyte(rd, 32 + int64(i)*16 + 8)
+//@   ensures result != nil ==> result != ErrNotFound
+
+//@ func (*BucketHeader) writeTo
+//@   mode int
+//@   requires b != nil && wr != nil && i <= 4294967296
+
+//@ func (*Bucket) loadEntry
+//@   mode int
+//@   requires b != nil && b.Entries != nil && 0 <= i && i <= 4294967296
+//@   requires b.HashLen == 3 && int(b.OffsetWidth) <= 8 && int(b.Stride) == 3 + int(b.OffsetWidth)
+//@   ensures result1 == nil ==> (i+1)*int(b.Stride) <= fsize(b.Entries)
+//@   ensures result1 == nil ==> forall j int :: 0 <= j && j < 8 ==> byte(result0.Hash >> (8*uint(j))) == ite(j < 3, fbyte(b.Entries, i*int(b.Stride)+j), 0)
+//@   ensures result1 == nil ==> forall j int :: 0 <= j && j < 8 ==> byte(result0.Value >> (8*uint(j))) == ite(j < int(b.OffsetWidth), fbyte(b.Entries, i*int(b.Stride)+3+j), 0)
+//@   ensures result1 != nil ==> result1 != ErrNotFound
+
+// The getter handed to searchEytzinger is b.loadEntry, called for indices below NumEntries: its preconditions are
+// required here (vcgo does not check the contract of a method value passed as a function argument).
+//@ func (*Bucket) binarySearch
+//@   mode int
+//@   requires b != nil && b.Entries != nil
+//@   requires b.HashLen == 3 && int(b.OffsetWidth) <= 8 && int(b.Stride) == 3 + int(b.OffsetWidth)
+//@   requires forall t int :: 0 <= t && t < int(b.NumEntries) ==> res1(b.loadEntry, t) != ErrNotFound
+//@   requires forall j, k int :: 1 <= k && k <= int(b.NumEntries) && 1 <= j && j <= int(b.NumEntries) && anc(j, 2*k) ==> res0(b.loadEntry, j-1).Hash < res0(b.loadEntry, k-1).Hash
+//@   requires forall j, k int :: 1 <= k && k <= int(b.NumEntries) && 1 <= j && j <= int(b.NumEntries) && anc(j, 2*k+1) ==> res0(b.loadEntry, j-1).Hash > res0(b.loadEntry, k-1).Hash
+//@   ensures result1 == nil ==> exists t int :: 0 <= t && t < int(b.NumEntries) && res1(b.loadEntry, t) == nil && res0(b.loadEntry, t).Hash == target && result0 == res0(b.loadEntry, t).Value
+//@   ensures result1 == ErrNotFound ==> forall t int :: 0 <= t && t < int(b.NumEntries) ==> res0(b.loadEntry, t).Hash != target
+//@   ensures result1 != nil && result1 != ErrNotFound ==> exists t int :: 0 <= t && t < int(b.NumEntries) && res1(b.loadEntry, t) == result1
+
+//@ func (*Bucket) Lookup
+//@   mode int
+//@   requires b != nil && b.Entries != nil
+//@   requires b.HashLen == 3 && int(b.OffsetWidth) <= 8 && int(b.Stride) == 3 + int(b.OffsetWidth)
+//@   requires forall t int :: 0 <= t && t < int(b.NumEntries) ==> res1(b.loadEntry, t) != ErrNotFound
+//@   requires forall j, k int :: 1 <= k && k <= int(b.NumEntries) && 1 <= j && j <= int(b.NumEntries) && anc(j, 2*k) ==> res0(b.loadEntry, j-1).Hash < res0(b.loadEntry, k-1).Hash
+//@   requires forall j, k int :: 1 <= k && k <= int(b.NumEntries) && 1 <= j && j <= int(b.NumEntries) && anc(j, 2*k+1) ==> res0(b.loadEntry, j-1).Hash > res0(b.loadEntry, k-1).Hash
+//@   ensures result1 == nil ==> exists t int :: 0 <= t && t < int(b.NumEntries) && res1(b.loadEntry, t) == nil && result0 == res0(b.loadEntry, t).Value
+//@   ensures result1 != nil && result1 != ErrNotFound ==> exists t int :: 0 <= t && t < int(b.NumEntries) && res1(b.loadEntry, t) == result1
+
+// ---- reader handle ----
+
+//@ spec func validDB(db *DB) bool = db != nil && db.Stream != nil && db.Header.NumBuckets >= 1
+
+//@ func Open
+//@   mode int
+//@   requires stream != nil
+//@   ensures result1 == nil ==> validDB(result0) && fresh(result0)
+//@   ensures result1 == nil ==> 32 <= fsize(stream) && result0.Stream == stream
+//@   ensures result1 != nil ==> result1 != ErrNotFound
+
+//@ func (*DB) GetBucket
+//@   mode int
+//@   requires validDB(db)
+//@   ensures result1 == nil ==> result0 != nil && fresh(result0) && result0.Entries != nil
+//@   ensures result1 == nil ==> result0.OffsetWidth == intWidth(db.Header.FileSize) && int(result0.Stride) == 3 + int(result0.OffsetWidth) && int(result0.OffsetWidth) <= 8
+//@   ensures result1 == nil ==> result0.HashLen == fbyte(db.Stream, 32 + int64(i)*16 + 8)
+//@   ensures result1 != nil ==> result1 != ErrNotFound
+
+//@ func (*DB) LookupBucket
+//@   mode int
+//@   requires validDB(db)
+//@   ensures result1 == nil ==> result0 != nil && fresh(result0) && result0.Entries != nil
+//@   ensures result1 != nil ==> result1 != ErrNotFound
+
+// Top-level query. No precondition beyond a handle returned by Open: the failing `pre` obligations of this function are
+// the reader-side findings (see report): HashLen of the bucket header is used unchecked, and the eytzinger order of the
+// entries in the file is an assumption on the file content.
+//@ func (*DB) Lookup
+//@   mode int
+//@   requires validDB(db)
+//@   ensures result1 != nil && result1 != ErrNotFound ==> true
+
+// ---- builder ----
+
+//@ spec func validBuilder(b *Builder) bool = b != nil && b.Header.NumBuckets >= 1 && len(b.buckets) >= int(b.Header.NumBuckets)
+
+//@ func NewBuilder
+//@   mode int
+//@   modifies all
+//@   ensures result1 == nil ==> result0 != nil && fresh(result0) && result0.Header.FileSize >= 1
+//@   ensures result1 == nil && targetFileSize != 0 ==> result0.Header.FileSize == targetFileSize
+//@   ensures result1 == nil && numItems <= 40000000000000 ==> validBuilder(result0) && len(result0.buckets) == int(result0.Header.NumBuckets)
+//@   ensures result1 == nil && 1 <= numItems && numItems <= 40000000000000 ==> validBuilder(result0) && len(result0.buckets) == int(result0.Header.NumBuckets)
+//@   ensures result1 == nil ==> forall k int :: 0 <= k && k < len(result0.buckets) ==> result0.buckets[k].writer != nil && result0.buckets[k].records == 0
+//@   loop 0 invariant forall k int :: 0 <= k && k < rangeidx0 ==> buckets[k].writer != nil
+//@   loop 0 invariant forall k int :: 0 <= k && k < len(buckets) ==> buckets[k].records == 0
+
+// Spill tuple: le16(len key) ++ le64(value) ++ key. A key longer than 65535 bytes cannot be represented.
+//@ func (*tempBucket) writeTuple
+//@   mode int
+//@   requires b != nil && b.writer != nil
+//@   requires len(key) <= 65535
+//@   modifies b, written(b.writer)
+//@   ensures b.records == old(b.records) + 1
+//@   ensures err == nil ==> written(b.writer) == old(written(b.writer)) + 10 + len(key)
+
+// Property: unsupported sizes must be an error, so result == nil has to imply a representable key and value.
+//@ func (*Builder) Insert
+//@   mode int
+//@   requires validBuilder(b)
+//@   requires forall k int :: 0 <= k && k < len(b.buckets) ==> b.buckets[k].writer != nil
+//@   modifies all
+//@   ensures result == nil ==> len(key) <= 65535
+//@   ensures result == nil ==> int(intWidth(value)) <= int(intWidth(b.Header.FileSize))
+
+//@ func (*tempBucket) flush
+//@   mode int
+//@   requires b != nil && b.writer != nil
+//@   modifies b
+//@   ensures result == nil ==> b.writer == nil && b.records == old(b.records) && b.file == old(b.file)
+
+// hashBucket: reads len(entries) tuples (10 static bytes + key), masks the hash to 24 bits, detects collisions in a 2^24-bit
+// bitmap, then sorts into eytzinger order. sortWithCompare hands a closure to sort.Slice (not modelled for closures that
+// call another closure), so nothing is known about the order afterwards.
+//@ func hashBucket
+//@   mode bv
+//@   requires rd != nil && len(bitmap) == 2097152 && ref(entries) != ref(bitmap)
+//@   modifies entries, bitmap, consumed(rd)
+//@   loop 0 invariant 0 <= rangeidx0
+
+//@ func sortWithCompare
+//@   mode int
+//@   requires compare != nil
+//@   modifies a
+
+//@ func (*tempBucket) mine
+//@   mode int
+//@   requires b != nil && b.file != nil && ctx != nil && b.records <= 1099511627776
+//@   modifies all
+//@   ensures err == nil ==> len(entries) == int(b.records) && domain < attempts
+//@   loop 0 invariant len(entries) == int(b.records) && len(bitmap) == 2097152 && ref(entries) != ref(bitmap) && rd != nil && b.file != nil
+//@   loop 1 invariant len(entries) == int(b.records) && len(bitmap) == 2097152 && ref(entries) != ref(bitmap) && rd != nil && b.file != nil && domain < attempts
+
+//@ func (*Builder) sealBucket
+//@   mode int
+//@   requires b != nil && f != nil && ctx != nil && 0 <= i && i < len(b.buckets) && len(b.buckets) <= 4294967296
+//@   requires b.buckets[i].writer != nil && b.buckets[i].file != nil && b.buckets[i].records <= 4294967295
+//@   modifies all
+//@   ensures ref(b.buckets) == old(ref(b.buckets)) && len(b.buckets) == old(len(b.buckets))
+//@   ensures forall k int :: 0 <= k && k < len(b.buckets) && k != i ==> b.buckets[k] == old(b.buckets[k])
+//@   loop 0 invariant desc.HashLen == 3 && int(desc.OffsetWidth) <= 8 && int(desc.Stride) == 3 + int(desc.OffsetWidth) && len(entryBuf) == int(desc.Stride)
+//@   loop 0 invariant wr != nil && f != nil && 0 <= i && i <= 4294967296
+
+//@ func (*Builder) Seal
+//@   mode int
+//@   requires b != nil && f != nil && ctx != nil && len(b.buckets) <= 4294967296
+//@   requires forall k int :: 0 <= k && k < len(b.buckets) ==> b.buckets[k].writer != nil && b.buckets[k].file != nil && b.buckets[k].records <= 4294967295
+//@   modifies all
+//@   loop 0 invariant b != nil && f != nil && ctx != nil && len(b.buckets) <= 4294967296
+//@   loop 0 invariant forall k int :: rangeidx0 <= k && k < len(b.buckets) ==> b.buckets[k].writer != nil && b.buckets[k].file != nil && b.buckets[k].records <= 4294967295
+
+//@ func (*Builder) Close
+//@   mode int
+//@   requires b != nil
+
+//@ func fake_fallocate
+//@   mode int
+//@   requires f != nil
+//@   modifies written(f)
+//@   ensures result == nil && old(size) >= 0 ==> written(f) == old(written(f)) + size
+//@   loop 0 invariant size >= 0 ==> written(f) + size == old(written(f)) + old(size)
+//@   loop 0 invariant old(size) <= 0 ==> size == old(size) && written(f) == old(written(f))
+//@   loop 0 invariant old(size) >= 0 ==> size >= 0
+
+//@ func fallocate
+//@   mode int
+//@   requires f != nil
+
+// ---- other reader functions ----
+
+//@ func (*DB) Prefetch
+//@   mode int
+//@   requires db != nil
+//@   modifies db
+//@   ensures db.prefetch == yes && db.Header == old(db.Header) && db.Stream == old(db.Stream)
+
+//@ func (*Bucket) Load
+//@   mode int
+//@   requires b != nil && b.Entries != nil && batchSize <= 1048576
+//@   requires b.HashLen == 3 && int(b.OffsetWidth) <= 8 && int(b.Stride) == 3 + int(b.OffsetWidth)
+//@   ensures result1 != nil ==> result0 == nil
+//@   loop 0 invariant len(buf) == batchSize*stride && stride == int(b.Stride) && batchSize >= 1
+//@   loop 1 invariant len(buf) == batchSize*stride && stride == int(b.Stride) && batchSize >= 1 && len(sub) <= len(buf)
+
+//@ func SearchSortedEntries
+//@   mode int
+//@   ensures result != nil ==> result.Hash == hash
